@@ -86,9 +86,13 @@ def gen_sketch(rs: Stream, kind: str, o, ax, pr, R) -> Dict[str, Any]:
 FIXED_AXIS = ("wedge", "revolve", "rstack", "estack", "revolved")  # built round the global axes: moved afterwards, if at all
 
 
-def gen_entity(rs: Stream, offset=None, name: str = "s0") -> Tuple[List[Dict[str, Any]], List[str]]:
-    """-> (construction ops, names of the entities to add); `offset` puts the entity somewhere else"""
-    kind = rs.weighted(KINDS)
+STRAIGHT = [("estack", 2), ("extruded", 2), ("lofted", 2), ("shell", 2), ("connector", 1)]  # with a grid / mapped sketch: no curved edge
+
+
+def gen_entity(rs: Stream, offset=None, name: str = "s0", straight: bool = False) -> Tuple[List[Dict[str, Any]], List[str]]:
+    """-> (construction ops, names of the entities to add); `offset` puts the entity somewhere else;
+    straight: only entities without curved edges"""
+    kind = rs.weighted(STRAIGHT if straight else KINDS)
     o = [round(rs.uniform(-3, 3), 3) for _ in range(3)]
     if offset and kind not in FIXED_AXIS:
         o = [round(o[i] + offset[i], 3) for i in range(3)]
@@ -114,13 +118,13 @@ def gen_entity(rs: Stream, offset=None, name: str = "s0") -> Tuple[List[Dict[str
         a = {"p1": _r(o), "p2": _r(p2), "face": [F(0, r0), F(L, r0 * rs.uniform(0.9, 1.1)), F(L * rs.uniform(0.9, 1.1), r0 + R), F(0, r0 + R * rs.uniform(0.8, 1.2))],
              "n": rs.pick([4, 5, 8])}
     elif kind in ("rstack", "estack"):
-        sk = gen_sketch(rs.sub("sk"), rs.pick(["grid", "grid", "mapped", "onecore"]), [1.0 + abs(o[0]), o[1], 0.0], [0.0, 0.0, 1.0], [1.0, 0.0, 0.0], R)
+        sk = gen_sketch(rs.sub("sk"), rs.pick(["grid", "grid", "mapped"] + ([] if straight else ["onecore"])), [1.0 + abs(o[0]), o[1], 0.0], [0.0, 0.0, 1.0], [1.0, 0.0, 0.0], R)
         if kind == "rstack":
             a = {"sketch": sk, "angle": round(rs.uniform(0.4, 1.6), 3), "axis": [0.0, 1.0, 0.0], "origin": [0.0, 0.0, 0.0], "repeats": rs.randint(1, 3)}
         else:
             a = {"sketch": sk, "amount": L, "repeats": rs.randint(1, 3)}
     elif kind in ("extruded", "lofted"):
-        sk = gen_sketch(rs.sub("sk"), rs.pick([d for d in DISKS if d != "grid"]), o, ax, pr, R)
+        sk = gen_sketch(rs.sub("sk"), "mapped" if straight else rs.pick([d for d in DISKS if d != "grid"]), o, ax, pr, R)
         if kind == "extruded":
             a = {"sketch": sk, "amount": L if rs.chance(0.5) else _r([L * x for x in ax])}
         else:
@@ -184,10 +188,10 @@ def snapshot_entities(it: Interp, names: List[str]):
     return out
 
 
-def entity_with_chops(rs: Stream, cfg_seed: int, mode=None, offset=None):
+def entity_with_chops(rs: Stream, cfg_seed: int, mode=None, offset=None, straight: bool = False):
     """-> (construction ops, chop ops, entity names, snapshot, meta); chops placed per edge family.
     mode: complete / omit / conflict (drawn when None)"""
-    ops, names = gen_entity(rs.sub("entity"), offset)
+    ops, names = gen_entity(rs.sub("entity"), offset, straight=straight)
     kind = ops[0]["kind"]
     meta = {"shapes": "zoo:" + kind, "cfg_seed": cfg_seed}
     it = Interp({"points": {}, "ops": ops})
@@ -232,6 +236,8 @@ def entity_with_chops(rs: Stream, cfg_seed: int, mode=None, offset=None):
             args: Dict[str, Any] = {"count": c + (cr.pick([1, 2]) if (root == clash and si == 1) else 0)}
             if cr.chance(0.3):
                 args["c2c_expansion"] = round(cr.uniform(0.9, 1.15), 3)
+                if straight and nsrc == 1 and cr.chance(0.6):
+                    args["preserve"] = cr.pick(["start_size", "end_size"])
             nme, j, _, _ = snap[bi]
             if j is None:
                 chops.append({"op": "chop", "target": nme, "axis": a, "args": args})
@@ -241,8 +247,8 @@ def entity_with_chops(rs: Stream, cfg_seed: int, mode=None, offset=None):
     return ops, chops, names, snap, meta
 
 
-def gen_zoo_program(rs: Stream, cfg_seed: int, dict_path: str, vtk_path: str) -> Dict[str, Any]:
-    ops, chops, names, snap, meta = entity_with_chops(rs, cfg_seed)
+def gen_zoo_program(rs: Stream, cfg_seed: int, dict_path: str, vtk_path: str, straight: bool = False) -> Dict[str, Any]:
+    ops, chops, names, snap, meta = entity_with_chops(rs, cfg_seed, mode="complete" if straight else None, straight=straight)
     if snap is None:
         return {"points": {}, "ops": ops, "meta": meta}
     cs = Stream(cfg_seed, "config", "zoo")
